@@ -1,6 +1,8 @@
 /-
 Proofs/ArchiveIndex — binary search over a strictly ascending record list = linear scan (archive
-group lookups, and the in-block search of the CDN index); soundness of the TOC-guided search.
+group lookups, and the in-block search of the CDN index); soundness of the TOC-guided search; its
+completeness under `validate_toc_consistency` (the TOC search selects the block that holds the key);
+the builder→parser model returns the sorted input.
 -/
 import Cascette.Proofs.Paged
 import Cascette.Model.ArchiveIndex
@@ -122,5 +124,374 @@ theorem chunked_find_sound {ε : Type} (key : ε → Key) (c : Chunked ε) (k : 
           · cases hi
         · cases hi
       · cases h
+
+/-! ## completeness of the TOC-guided search (block selection) -/
+
+/-- contract of `partition_point` in index form -/
+theorem partitionPoint_spec {α : Type} (p : α → Bool) (l : List α)
+    (hm : l.Pairwise (fun a b => p b = true → p a = true)) :
+    partitionPoint p l ≤ l.length ∧
+    (∀ j (h : j < l.length), j < partitionPoint p l → p l[j] = true) ∧
+    (∀ j (h : j < l.length), partitionPoint p l ≤ j → p l[j] = false) := by
+  unfold partitionPoint
+  simp only [List.getElem?_toArray]
+  have hmono : ∀ i j, 0 ≤ i → i ≤ j → j < l.length →
+      (match l[j]? with | some x => p x | none => false) = true →
+      (match l[i]? with | some x => p x | none => false) = true := by
+    intro i j _ hij hj
+    have hi : i < l.length := by omega
+    rw [List.getElem?_eq_getElem hj, List.getElem?_eq_getElem hi]
+    simp only
+    intro hpj
+    by_cases e : i = j
+    · subst e; exact hpj
+    · exact (List.pairwise_iff_getElem.1 hm) i j hi hj (by omega) hpj
+  obtain ⟨_, b, c, d⟩ := bisect_spec _ l.length 0 l.length (Nat.zero_le _) (by omega) hmono
+  refine ⟨b, ?_, ?_⟩
+  · intro i hi hir
+    have := c i (Nat.zero_le _) hir
+    rw [List.getElem?_eq_getElem hi] at this
+    exact this
+  · intro i hi hir
+    have := d i hir hi
+    rw [List.getElem?_eq_getElem hi] at this
+    exact this
+
+theorem prefixCmp_same_len (t k : Key) (h : t.length = k.length) : prefixCmp t k = kcmp t k := by
+  unfold prefixCmp
+  simp only [h, Nat.min_self]
+  rw [List.take_of_length_le (by omega), List.take_of_length_le (by omega)]
+
+/-- the block selection of `binary_search_key` -/
+def tocSel (toc : List Key) (k : Key) : Option Nat :=
+  match binarySearchBy (fun t => prefixCmp t k) toc with
+  | .ok i => some i
+  | .error i => if i ≥ toc.length then none else some i
+
+theorem tocSel_eq (toc : List Key) (k : Key) :
+    tocSel toc k = (if partitionPoint (fun t => prefixCmp t k == .lt) toc < toc.length
+      then some (partitionPoint (fun t => prefixCmp t k == .lt) toc) else none) := by
+  unfold tocSel binarySearchBy
+  simp only
+  cases h : toc[partitionPoint (fun t => prefixCmp t k == .lt) toc]? with
+  | none =>
+    have := List.getElem?_eq_none_iff.1 h
+    simp only [ge_iff_le, this, ↓reduceIte]
+    rw [if_neg (by omega)]
+  | some x =>
+    have : partitionPoint (fun t => prefixCmp t k == .lt) toc < toc.length := by
+      cases Nat.lt_or_ge (partitionPoint (fun t => prefixCmp t k == .lt) toc) toc.length with
+      | inl h' => exact h'
+      | inr h' => rw [List.getElem?_eq_none_iff.2 h'] at h; cases h
+    simp only [this, ↓reduceIte]
+    by_cases hc : (prefixCmp x k == Ordering.eq) = true
+    · simp only [hc, ↓reduceIte]
+    · simp only [hc, Bool.false_eq_true, ↓reduceIte, ge_iff_le]
+      rw [if_neg (by omega)]
+
+theorem find_unfold {ε : Type} (key : ε → Key) (c : Chunked ε) (k : Key) :
+    Chunked.find key c k =
+      (match tocSel c.toc k with
+      | none => some none
+      | some ci =>
+        if ci * c.rpb > min (ci * c.rpb + c.rpb) c.entries.length then none else
+        match binarySearchBy (fun e => kcmp (key e) k) ((c.entries.drop (ci * c.rpb)).take (min (ci * c.rpb + c.rpb) c.entries.length - ci * c.rpb)) with
+        | .ok i => some ((c.entries.drop (ci * c.rpb)).take (min (ci * c.rpb + c.rpb) c.entries.length - ci * c.rpb))[i]?
+        | .error _ => some none) := rfl
+
+
+/-! ### completeness of the TOC-guided search -/
+
+theorem blk_lt (n rpb ci : Nat) (h0 : 0 < rpb) (h : ci < divCeil n rpb) : ci * rpb < n := by
+  unfold divCeil at h
+  have h1 : ci + 1 ≤ (n + rpb - 1) / rpb := h
+  rw [Nat.le_div_iff_mul_le h0, Nat.succ_mul] at h1
+  omega
+
+theorem blk_cover (n rpb : Nat) (h0 : 0 < rpb) : n ≤ divCeil n rpb * rpb := by
+  unfold divCeil
+  have := Nat.lt_mul_div_succ (n + rpb - 1) h0
+  rw [Nat.mul_succ, Nat.mul_comm] at this
+  omega
+
+/-- `validate_toc_consistency` (+ a positive block capacity) as a proposition -/
+structure TocOK {ε : Type} (key : ε → Key) (c : Chunked ε) : Prop where
+  rpb_pos : 0 < c.rpb
+  len : c.toc.length = divCeil c.entries.length c.rpb
+  last : ∀ ci (h : ci < c.toc.length),
+    (c.entries[min (ci * c.rpb + c.rpb) c.entries.length - 1]?).map key = some c.toc[ci]
+
+theorem lt_of_idx_le {ε : Type} (key : ε → Key) (l : List ε)
+    (hs : l.Pairwise (fun a b => klt (key a) (key b) = true)) (k : Key) (j q : Nat) (hq : q < l.length)
+    (hjq : j ≤ q) (h : klt (key l[q]) k = true) : klt (key (l[j]'(by omega))) k = true := by
+  by_cases e : j = q
+  · subst e; exact h
+  · exact klt_trans ((List.pairwise_iff_getElem.1 hs) j q (by omega) hq (by omega)) h
+
+theorem gt_of_idx_ge {ε : Type} (key : ε → Key) (l : List ε)
+    (hs : l.Pairwise (fun a b => klt (key a) (key b) = true)) (k : Key) (j q : Nat) (hj : j < l.length)
+    (hjq : q < j) (h : klt (key (l[q]'(by omega))) k = false) : klt k (key l[j]) = true := by
+  have h1 := (List.pairwise_iff_getElem.1 hs) q j (by omega) hj hjq
+  have h2 : kle k (key (l[q]'(by omega))) = true := by
+    have := klt_eq_not_kle (key (l[q]'(by omega))) k
+    rw [h] at this
+    simpa using this.symm
+  exact klt_of_kle_of_klt h2 h1
+
+theorem find?_mid {α : Type} (p : α → Bool) (l : List α) (a b : Nat)
+    (h1 : ∀ x ∈ l.take a, p x = false) (h2 : ∀ x ∈ (l.drop a).drop b, p x = false) :
+    l.find? p = ((l.drop a).take b).find? p := by
+  have e : l = l.take a ++ (((l.drop a).take b) ++ (l.drop a).drop b) := by
+    rw [List.take_append_drop, List.take_append_drop]
+  have n1 : (l.take a).find? p = none := List.find?_eq_none.2 (by simpa using h1)
+  have n2 : ((l.drop a).drop b).find? p = none := List.find?_eq_none.2 (by simpa using h2)
+  conv => lhs; rw [e]
+  rw [List.find?_append, List.find?_append, n1, n2]
+  simp
+
+theorem tocSel_lt (toc : List Key) (k : Key) (ci : Nat) (h : tocSel toc k = some ci) : ci < toc.length := by
+  rw [tocSel_eq] at h
+  split at h
+  · cases h; assumption
+  · cases h
+
+/-- under `validate_toc_consistency` the slice `entries[start..end]` never panics -/
+theorem find_ne_none {ε : Type} (key : ε → Key) (c : Chunked ε) (ht : TocOK key c) (k : Key) :
+    Chunked.find key c k ≠ none := by
+  rw [find_unfold]
+  cases hsel : tocSel c.toc k with
+  | none => simp
+  | some ci =>
+    have h1 := tocSel_lt _ _ _ hsel
+    rw [ht.len] at h1
+    have h2 := blk_lt _ _ _ ht.rpb_pos h1
+    simp only
+    rw [if_neg (by omega)]
+    split <;> simp
+
+
+theorem chunked_find_eq_scan {ε : Type} (key : ε → Key) (c : Chunked ε) (ks : Nat)
+    (hs : c.entries.Pairwise (fun a b => klt (key a) (key b) = true))
+    (hlen : ∀ e ∈ c.entries, (key e).length = ks)
+    (ht : TocOK key c) (k : Key) :
+    Chunked.find key c k = some (c.entries.find? (fun e => key e == k)) := by
+  by_cases hk : k.length = ks
+  · -- probe of the index's key size: the TOC comparison is the full comparison
+    obtain ⟨entries, toc, rpb⟩ := c
+    have hr : 0 < rpb := ht.rpb_pos
+    have hl : toc.length = divCeil entries.length rpb := ht.len
+    have hlast : ∀ ci (h : ci < toc.length),
+        (entries[min (ci * rpb + rpb) entries.length - 1]?).map key = some toc[ci] := ht.last
+    simp only at hs hlen
+    -- per block: it is non-empty and its last record's key is the TOC key
+    have hblk : ∀ ci (h : ci < toc.length), ci * rpb < entries.length ∧
+        ∃ (h2 : min (ci * rpb + rpb) entries.length - 1 < entries.length),
+          key entries[min (ci * rpb + rpb) entries.length - 1] = toc[ci] := by
+      intro ci h
+      have h1 := blk_lt _ _ _ hr (hl ▸ h)
+      have h2 : min (ci * rpb + rpb) entries.length - 1 < entries.length := by omega
+      refine ⟨h1, h2, ?_⟩
+      have := hlast ci h
+      rw [List.getElem?_eq_getElem h2] at this
+      simpa using this
+    have htlen : ∀ j (h : j < toc.length), toc[j].length = k.length := by
+      intro j h
+      obtain ⟨_, h2, e⟩ := hblk j h
+      rw [← e, hk]
+      exact hlen _ (List.getElem_mem h2)
+    have hp : ∀ j (h : j < toc.length), (prefixCmp toc[j] k == Ordering.lt) = klt toc[j] k := by
+      intro j h
+      rw [prefixCmp_same_len _ _ (htlen j h)]; rfl
+    have htoc : ∀ j1 j2 (h1 : j1 < toc.length) (h2 : j2 < toc.length), j1 < j2 → klt toc[j1] toc[j2] = true := by
+      intro j1 j2 h1 h2 h12
+      obtain ⟨a1, b1, e1⟩ := hblk j1 h1
+      obtain ⟨a2, b2, e2⟩ := hblk j2 h2
+      rw [← e1, ← e2]
+      apply (List.pairwise_iff_getElem.1 hs) _ _ b1 b2
+      have : (j1 + 1) * rpb ≤ j2 * rpb := Nat.mul_le_mul_right _ h12
+      rw [Nat.succ_mul] at this
+      omega
+    have hm : toc.Pairwise (fun a b => (prefixCmp b k == Ordering.lt) = true → (prefixCmp a k == Ordering.lt) = true) := by
+      rw [List.pairwise_iff_getElem]
+      intro i j hi hj hij hpj
+      rw [hp j hj] at hpj
+      rw [hp i hi]
+      exact klt_trans (htoc i j hi hj hij) hpj
+    obtain ⟨hle, hlt, hge⟩ := partitionPoint_spec _ toc hm
+    rw [find_unfold, tocSel_eq]
+    simp only
+    generalize partitionPoint (fun t => prefixCmp t k == Ordering.lt) toc = i at hle hlt hge ⊢
+    by_cases hi : i < toc.length
+    · rw [if_pos hi]
+      simp only
+      obtain ⟨hstart, hstop, elast⟩ := hblk i hi
+      rw [if_neg (by omega)]
+      have hsorted : ((entries.drop (i * rpb)).take (min (i * rpb + rpb) entries.length - i * rpb)).Pairwise
+          (fun a b => klt (key a) (key b) = true) :=
+        (hs.sublist (List.drop_sublist _ _)).sublist (List.take_sublist _ _)
+      have hbs := binarySearch_eq_scan key _ k hsorted
+      have hfind : entries.find? (fun e => key e == k) =
+          ((entries.drop (i * rpb)).take (min (i * rpb + rpb) entries.length - i * rpb)).find? (fun e => key e == k) := by
+        apply find?_mid
+        · intro x hx
+          obtain ⟨j, hj, rfl⟩ := List.mem_take_iff_getElem.1 hx
+          have hj1 : j < i * rpb := by omega
+          cases i with
+          | zero => omega
+          | succ i' =>
+            have hi' : i' < toc.length := by omega
+            obtain ⟨a1, b1, e1⟩ := hblk i' hi'
+            have hlt' := hlt i' hi' (by omega)
+            rw [hp i' hi', ← e1] at hlt'
+            rw [Nat.succ_mul] at hj1 hstart
+            have := lt_of_idx_le key entries hs k j _ b1 (by omega) hlt'
+            simpa using klt_ne this
+        · intro x hx
+          rw [List.drop_drop] at hx
+          obtain ⟨j, hj, rfl⟩ := List.mem_drop_iff_getElem.1 hx
+          have hge' := hge i hi (Nat.le_refl _)
+          rw [hp i hi, ← elast] at hge'
+          have hj' : i * rpb + (min (i * rpb + rpb) entries.length - i * rpb) + j < entries.length := by
+            omega
+          have := gt_of_idx_ge key entries hs k (i * rpb + (min (i * rpb + rpb) entries.length - i * rpb) + j)
+            (min (i * rpb + rpb) entries.length - 1) hj' (by omega) hge'
+          have hne := klt_ne this
+          exact beq_eq_false_iff_ne.2 (fun e => hne e.symm)
+      rw [hfind, ← hbs]
+      cases binarySearchBy (fun e => kcmp (key e) k)
+        ((entries.drop (i * rpb)).take (min (i * rpb + rpb) entries.length - i * rpb)) <;> rfl
+    · rw [if_neg hi]
+      simp only [Option.some.injEq]
+      symm
+      apply find?_none_of_lt
+      intro x hx
+      obtain ⟨j, hj, rfl⟩ := List.mem_iff_getElem.1 hx
+      have hcov := blk_cover entries.length rpb hr
+      rw [← hl] at hcov
+      cases hm' : toc.length with
+      | zero => rw [hm'] at hcov; omega
+      | succ m =>
+        have hmlt : m < toc.length := by omega
+        obtain ⟨a1, b1, e1⟩ := hblk m hmlt
+        have hlt' := hlt m hmlt (by omega)
+        rw [hp m hmlt, ← e1] at hlt'
+        rw [hm', Nat.succ_mul] at hcov
+        exact klt_ne (lt_of_idx_le key entries hs k j _ b1 (by omega) hlt')
+  · -- probe of another length: no record has it, and the search cannot invent one
+    have hnone : c.entries.find? (fun e => key e == k) = none := by
+      apply find?_none_of_lt
+      intro x hx e
+      exact hk (e ▸ hlen x hx)
+    rw [hnone]
+    cases hf : Chunked.find key c k with
+    | none => exact absurd hf (find_ne_none key c ht k)
+    | some r =>
+      cases r with
+      | none => rfl
+      | some e =>
+        obtain ⟨hm, he⟩ := chunked_find_sound key c k e hf
+        exact absurd (he ▸ hlen e hm) hk
+
+
+/-! ### from the executable checks of `ArchiveIndex::parse` to the hypotheses above -/
+
+theorem tocOK_of_check (entries : List Entry) (toc : List Key) (rpb : Nat) (h0 : 0 < rpb)
+    (h : tocConsistent entries toc rpb = true) :
+    TocOK Entry.key { entries := entries, toc := toc, rpb := rpb } := by
+  unfold tocConsistent at h
+  simp only [Bool.and_eq_true, beq_iff_eq, List.all_eq_true] at h
+  obtain ⟨hl, hall⟩ := h
+  refine ⟨h0, hl, ?_⟩
+  intro ci hci
+  simp only at hci ⊢
+  have hmem : (toc[ci], ci) ∈ toc.zipIdx := by
+    rw [List.mem_zipIdx_iff_getElem?]
+    exact List.getElem?_eq_getElem hci
+  have := hall _ hmem
+  simp only at this
+  have h1 := blk_lt _ _ _ h0 (hl ▸ hci)
+  rw [if_pos (by omega)] at this
+  split at this
+  · rename_i e he
+    rw [he]
+    simpa using this
+  · cases this
+
+theorem chunksOf_flatten {ε : Type} (n : Nat) (h0 : 0 < n) : ∀ (fuel : Nat) (l : List ε), l.length ≤ fuel →
+    (chunksOf n fuel l).flatten = l := by
+  intro fuel
+  induction fuel with
+  | zero => intro l h; have : l = [] := List.length_eq_zero_iff.1 (by omega); subst this; rfl
+  | succ f ih =>
+    intro l h
+    unfold chunksOf
+    cases l with
+    | nil => rfl
+    | cons a t =>
+      simp only [List.isEmpty_cons, Bool.false_eq_true, ↓reduceIte, List.flatten_cons]
+      rw [ih _ (by simp only [List.length_drop, List.length_cons] at h ⊢; omega), List.take_append_drop]
+
+theorem mem_chunksOf {ε : Type} (n : Nat) : ∀ (fuel : Nat) (l : List ε) (b : List ε) (x : ε),
+    b ∈ chunksOf n fuel l → x ∈ b → x ∈ l := by
+  intro fuel
+  induction fuel with
+  | zero => intro l b x hb; simp [chunksOf] at hb
+  | succ f ih =>
+    intro l b x hb hx
+    unfold chunksOf at hb
+    split at hb
+    · cases hb
+    · simp only [List.mem_cons] at hb
+      rcases hb with rfl | hb
+      · exact (List.take_sublist _ _).subset hx
+      · exact (List.drop_sublist _ _).subset (ih _ b x hb hx)
+
+/-- with records that fit their fields and no padding look-alike, the block parser reads back exactly
+the sorted input -/
+theorem parsed_eq_sorted (ob rpb : Nat) (h0 : 0 < rpb) (sorted : List Entry)
+    (hfit : ∀ e ∈ sorted, stored ob e = e) (hnz : ∀ e ∈ sorted, e.isZero = false) :
+    ((chunksOf rpb sorted.length sorted).map fun b => (b.map (stored ob)).takeWhile (fun e => !e.isZero)).flatten
+      = sorted := by
+  have : ((chunksOf rpb sorted.length sorted).map fun b => (b.map (stored ob)).takeWhile (fun e => !e.isZero))
+      = chunksOf rpb sorted.length sorted := by
+    conv => rhs; rw [← List.map_id (chunksOf rpb sorted.length sorted)]
+    apply List.map_congr_left
+    intro b hb
+    have hb' : ∀ x ∈ b, x ∈ sorted := fun x hx => mem_chunksOf rpb _ _ b x hb hx
+    have e1 : b.map (stored ob) = b := by
+      conv => rhs; rw [← List.map_id b]
+      exact List.map_congr_left fun x hx => hfit x (hb' x hx)
+    rw [e1]
+    apply takeWhile_all
+    intro x hx
+    simp [hnz x (hb' x hx)]
+  rw [this, chunksOf_flatten rpb h0 _ _ (Nat.le_refl _)]
+
+theorem buildParse_find_eq_lookup (ks ob rpb : Nat) (input : List Entry) (hrpb : 0 < rpb)
+    (hlen : ∀ e ∈ input, e.key.length = ks) (hd : Distinct Entry.key input)
+    (hfit : ∀ e ∈ input, stored ob e = e) (hnz : ∀ e ∈ input, e.isZero = false)
+    (c : Chunked Entry) (hb : buildParse ks ob rpb input = some c) (k : Key) :
+    Cascette.Model.ArchiveIndex.find c k = some (Cascette.Spec.Lookup.lookup Entry.key input k) := by
+  have hperm : (sortEntries input).Perm input := List.mergeSort_perm _ _
+  have hpar := parsed_eq_sorted ob rpb hrpb (sortEntries input)
+    (fun e he => hfit e (hperm.mem_iff.1 he)) (fun e he => hnz e (hperm.mem_iff.1 he))
+  unfold buildParse at hb
+  simp only [hpar] at hb
+  split at hb
+  · cases hb
+  · split at hb
+    · cases hb
+    · rename_i _ htc
+      simp only [Bool.not_eq_true, Bool.not_eq_false'] at htc
+      simp only [Option.some.injEq] at hb
+      subst hb
+      have hok := tocOK_of_check _ _ _ hrpb htc
+      unfold Cascette.Model.ArchiveIndex.find
+      rw [chunked_find_eq_scan Entry.key _ ks (sort_strict Entry.key input hd)
+        (fun e he => hlen e (hperm.mem_iff.1 he)) hok k]
+      simp only [Cascette.Spec.Lookup.lookup]
+      congr 1
+      exact (scan_perm Entry.key hperm.symm hd k).symm
+
 
 end Cascette.Proofs.ArchiveIndex
